@@ -136,7 +136,8 @@ def read_paths(obj, depth=0, seen=None):
     elif isinstance(obj, (list, collections.deque)):
         steps = [("idx", i) for i in range(min(len(obj), 2))]
     elif isinstance(obj, dict):
-        steps = [("key", i) for i in range(min(len(obj), 2))] + [("keyobj", i) for i in range(min(len(obj), 2))]
+        steps = [("key", i) for i in range(min(len(obj), 2))] + [("keyobj", i) for i in range(min(len(obj), 2))] \
+            + [("revkey", i) for i in range(min(len(obj), 2))]      # reversed(d): the keys through dict.__reversed__
     elif isinstance(obj, (tuple, set, frozenset)):
         steps = [("iter", i) for i in range(min(len(obj), 2))]
     for st in steps:
@@ -161,13 +162,15 @@ def follow(obj, path):
             obj = obj[list(obj)[a]]
         elif kind == "keyobj":
             obj = list(obj)[a]
+        elif kind == "revkey":
+            obj = list(reversed(obj))[a]
         else:
             obj = list(obj)[a]
     return obj
 
 
 def _path_label(path):
-    return ">".join(k if k in ("idx", "key", "keyobj", "iter") else f"attr" for k, _ in path) or "self"
+    return ">".join(k if k in ("idx", "key", "keyobj", "revkey", "iter") else f"attr" for k, _ in path) or "self"
 
 
 def run_impl(case):
@@ -251,6 +254,8 @@ def judge(case, impl):
     fails = []
     for r in impl.get("leaks", []):
         what = {"read": "an object obtained by reading", "ctor": "the constructor argument", "wrap": "the structure whose field value was passed to the constructor"}[case["mode"]]
-        fails.append((f"deep-{case['mode']}-leak:{case['shape']}:{r['mut']}",
+        # reads through an accessor other than attribute / index / key / iteration are named in the key
+        via = ":via-reversed" if "revkey" in str(r["path"]) else ""
+        fails.append((f"deep-{case['mode']}-leak:{case['shape']}{via}:{r['mut']}",
                       f"ImmutableStructure over {case['shape']} changed by {r['mut']} on {what} (path {r['path']})"))
     return fails
